@@ -67,7 +67,11 @@ class Task:
 
 
 class Scheduler:
-    def __init__(self, schedule, max_steps=200000):
+    def __init__(self, schedule, max_steps=200000, deviations=None):
+        # deviations: {decision index: choice} on top of the default "first enabled task" schedule (used for the
+        # bounded-exhaustive exploration: all schedules with at most k deviations from the default one)
+        self.deviations = deviations
+        self.branching = []
         self.schedule = list(schedule)
         self.pos = 0
         self.max_steps = max_steps
@@ -115,7 +119,10 @@ class Scheduler:
                 break
             if len(enabled) > 1:
                 self.decisions += 1
-            if self.pos < len(self.schedule):
+            if self.deviations is not None:
+                c = self.deviations.get(self.pos, 0)
+                self.branching.append(len(enabled))
+            elif self.pos < len(self.schedule):
                 c = self.schedule[self.pos]
             else:
                 c = self.pos            # after the schedule is used up: round robin
